@@ -12,7 +12,9 @@
 //   |v|^2 in [2^(emin+8), 2^(emax-8)] (exact) => each slot within 4 ulps of v_i/|v| (the algorithm's a-priori bound is
 //                            3.5 u relative = at most 3.5 ulps), | |d| - 1 | <= 4 ulps of T at 1, |d x v| / |v| <= 4 eps_T,
 //                            d.v / |v| >= 1 - 4 eps_T
-//   2^k v (exact)         => bit-identical direction;   c v (rounded, c > 0) => within 8 ulps + the exact change of v/|v|
+//   2^k v (exact)         => bit-identical direction, provided no component's square is below the normal range of T in
+//                            either scale (otherwise counted and shown, not judged);
+//   c v (rounded, c > 0)  => within 8 ulps + the exact change of v/|v|
 //   magnitude             => within 3 ulps of the binary128 Euclidean norm (a-priori 2.5 u), +0 for the zero vector
 //   recomposition         => every slot within 4 ulps of T at the scale of |v|
 // Inputs outside the range are counted as skipped, never judged.
@@ -21,11 +23,10 @@
 #include "PhQ/Direction.hpp"
 #include "PhQ/PlanarDirection.hpp"
 
-// Part 0 holds main() and the paths that need Direction.hpp only; the 17 vector quantities are spread over the
-// other parts (all in part 0 when the monitor is built as a single translation unit).
-#define C10_QPART(I) (VERIF_PARTS == 1 ? 0 : 1 + ((I) % (VERIF_PARTS - 1)))
-#define C10_Q_HERE(I) (C10_QPART(I) == VERIF_PART)
-#if VERIF_PARTS == 1 || VERIF_PART != 0
+// Work units: 0..2 = the paths that need Direction.hpp only, one unit per numeric type; 3 + 3*q + t = vector
+// quantity q in numeric type t.  Unit U is compiled into part U % VERIF_PARTS.
+#define C10_UNIT_HERE(U) (((U) % VERIF_PARTS) == VERIF_PART)
+#if 1
 #include "PhQ/Acceleration.hpp"
 #include "PhQ/Displacement.hpp"
 #include "PhQ/Force.hpp"
@@ -373,13 +374,14 @@ bool judge_direction(Reporter& R, const std::string& path, const char* cls, cons
   return true;
 }
 
-// exact 2^k multiple, or empty when some component would not be exact
+// w = 2^k v exactly (verified by scaling back), false when some component would overflow or lose bits
 template <typename T, size_t N>
 bool scaled_pow2(const Arr<T, N>& v, int k, Arr<T, N>& w) {
   for (size_t i = 0; i < N; ++i) {
     w[i] = std::ldexp(v[i], k);
-    if (std::isinf(static_cast<long double>(w[i]))) return false;
-    if (static_cast<f128>(w[i]) != ldexpq(static_cast<f128>(v[i]), k)) return false;
+    if (!std::isfinite(static_cast<long double>(w[i]))) return false;
+    if ((v[i] == 0) != (w[i] == 0)) return false;
+    if (!same_bits(std::ldexp(w[i], -k), v[i])) return false;
   }
   return true;
 }
@@ -395,14 +397,18 @@ int top_exponent(const Arr<T, N>& v) {
 
 // One construction path that takes an arbitrary vector: build(array) -> Built.
 // `rescale` is false for derived paths whose input is itself a direction (build(w) would not receive w).
-template <typename T, size_t N, typename F>
-void run_path(Ctx& C, const std::string& path, uint64_t path_id, F&& build, bool rescale = true) {
+template <typename T, size_t N>
+using Builder = std::function<Built<T, N>(const Arr<T, N>&)>;
+
+template <typename T, size_t N>
+void run_path(Ctx& C, const std::string& path, uint64_t path_id, const Builder<T, N>& build, bool rescale = true) {
   Reporter& R = C.R;
   const char* tn = Num<T>::name;
   const uint64_t cases = static_cast<uint64_t>(C.A.n("cases", C.A.thorough() ? 120000 : 1600));
   R.list("paths", path);
   const std::string okey = "obs|" + path + "|" + tn;
   R.crumb("C10|path=" + path + "|" + tn);
+  bool sampled = false;
   guarded(R, "C10|path=" + path + "|" + tn, [&] {
     for (uint64_t ci = 0; ci < cases; ++ci) {
       if (!C.A.mine(ci + path_id)) continue;
@@ -414,7 +420,8 @@ void run_path(Ctx& C, const std::string& path, uint64_t path_id, F&& build, bool
       R.count(okey);
       R.nontrivial(path + "|" + tn + "|" + cs.cls);
       if (ref.zero) continue;
-      if (R.want_sample() && ci % 7 == 3) {
+      if (!sampled && R.want_sample() && mix(path_id * 3 + Num<T>::idx, static_cast<uint64_t>(C.A.shard)) % 24 == 0 && ci % 16 < 8) {
+        sampled = true;
         R.sample(J().s("path", path).s("numeric_type", tn).s("class", cs.cls).raw("input", jarr(b.in))
                      .raw("direction", jarr(b.out)).raw("exact", jq(ref.unit)).str());
       }
@@ -434,8 +441,20 @@ void run_path(Ctx& C, const std::string& path, uint64_t path_id, F&& build, bool
           R.eval(N);
           const bool under = ref.sq_under || rw.sq_under;
           R.count(std::string(under ? "rescale_pow2_with_underflowing_square_" : "rescale_pow2_") + tn);
-          if (!same) {
-            R.violation(vkey(path, under ? "rescale-pow2|component-square-underflows" : "rescale-pow2", tn),
+          if (!same && under) {
+            // Outside the premise of the bit-identity clause (ruling: "squared length does not underflow" = no IEEE
+            // underflow while computing it): the square of a small component is subnormal or zero in one scale and
+            // exact in the other, so the two scales do not perform the same roundings.  Counted and shown, not judged;
+            // unit length, parallelism and the component bounds were judged above all the same.
+            const std::string ck = std::string("rescale_pow2_with_underflowing_square_not_bit_identical_") + tn;
+            R.count(ck);
+            if (R.counters[ck] <= 1) {
+              R.list("witness_pow2_rescaling_with_underflowing_component_square",
+                     J().s("path", path).s("numeric_type", tn).i("log2_factor", k).raw("input", jarr(b.in))
+                         .raw("direction", jarr(b.out)).raw("direction_of_scaled", jarr(bw.out)).str());
+            }
+          } else if (!same) {
+            R.violation(vkey(path, "rescale-pow2", tn),
                         J().s("class", cs.cls).i("log2_factor", k).raw("input", jarr(b.in)).raw("direction", jarr(b.out))
                             .raw("scaled_input", jarr(bw.in)).raw("direction_of_scaled", jarr(bw.out)).str());
           }
@@ -777,7 +796,8 @@ void run_cross(Ctx& C, uint64_t id) {
       if (!(sine <= bound)) R.violation(vkey(path, "parallel", tn), detail(static_cast<double>(ratio)));
       const f128 dot = rq[0] * c[0] + rq[1] * c[1] + rq[2] * c[2];
       if (bound < 0.5Q && !(dot > 0)) R.violation(vkey(path, "same-way", tn), detail(0));
-      if (R.want_sample() && ci % 11 == 2) {
+      if (R.want_sample() && ci % 11 == 2 && (id + static_cast<uint64_t>(C.A.shard)) % 16 == 3 && std::strcmp(pc.cls, "nearly-parallel") == 0 && R.counters["cross_samples"] < 1) {
+        R.count("cross_samples");
         R.sample(J().s("path", path).s("numeric_type", tn).s("class", pc.cls).raw("a", jarr(av)).raw("b", jarr(bv))
                      .raw("cross", jarr(out)).raw("exact_cross", jq(c)).str());
       }
@@ -907,6 +927,7 @@ void run_quantity_T(Ctx& C, const char* qname, const char* mname, uint64_t qinde
   // ---- magnitude, accessors, recomposition
   const uint64_t cases = static_cast<uint64_t>(C.A.n("cases", C.A.thorough() ? 120000 : 1600));
   R.crumb(qk + tn);
+  bool sampled = false;
   guarded(R, qk + tn, [&] {
     for (uint64_t ci = 0; ci < cases; ++ci) {
       if (!C.A.mine(ci + id + 3)) continue;
@@ -992,7 +1013,8 @@ void run_quantity_T(Ctx& C, const char* qname, const char* mname, uint64_t qinde
       if constexpr (ctor) check("Q(magnitude,direction)", Q(mag, d));
       R.count("qobs|" + qn + "|" + tn);
       R.nontrivial("quantity|" + qn + "|" + tn + "|" + cs.cls);
-      if (R.want_sample() && ci % 13 == 5 && !ref.zero) {
+      if (!sampled && R.want_sample() && mix(id, static_cast<uint64_t>(C.A.shard) + Num<T>::idx) % 12 == 0 && !ref.zero) {
+        sampled = true;
         R.sample(detail().s("quantity", qn).s("numeric_type", tn).num("magnitude", m).q("exact_norm", ref.len)
                      .raw("direction", jarr(arr_of(d.Value()))).str());
       }
@@ -1000,89 +1022,63 @@ void run_quantity_T(Ctx& C, const char* qname, const char* mname, uint64_t qinde
   });
 }
 
-template <template <typename> class QT, template <typename> class MT, size_t N>
-void run_quantity(Ctx& C, const char* qname, const char* mname, uint64_t qindex) {
-  run_quantity_T<QT, MT, N, float>(C, qname, mname, qindex);
-  run_quantity_T<QT, MT, N, double>(C, qname, mname, qindex);
-  run_quantity_T<QT, MT, N, long double>(C, qname, mname, qindex);
-}
 #endif  // C10_HAVE_QUANTITIES
 
 }  // namespace
 
+template <typename T>
+static void run_raw_unit(Ctx& C) {
+  run_raw<T, 3>(C, 100);
+  run_raw<T, 2>(C, 200);
+  run_cross<T, 3>(C, 300);
+  run_cross<T, 2>(C, 310);
+  run_dimension_change<T>(C, 320);
+}
+
+// (quantity, the scalar type its magnitude is expected to have, dimension of the space, index)
+#define C10_VECTOR_QUANTITIES(X) \
+  X(Acceleration, ScalarAcceleration, 3, 0) \
+  X(Displacement, Length, 3, 1) \
+  X(Force, ScalarForce, 3, 2) \
+  X(HeatFlux, ScalarHeatFlux, 3, 3) \
+  X(Position, Length, 3, 4) \
+  X(TemperatureGradient, ScalarTemperatureGradient, 3, 5) \
+  X(Traction, ScalarTraction, 3, 6) \
+  X(VectorArea, Area, 3, 7) \
+  X(Velocity, Speed, 3, 8) \
+  X(PlanarAcceleration, ScalarAcceleration, 2, 9) \
+  X(PlanarDisplacement, Length, 2, 10) \
+  X(PlanarForce, ScalarForce, 2, 11) \
+  X(PlanarHeatFlux, ScalarHeatFlux, 2, 12) \
+  X(PlanarPosition, Length, 2, 13) \
+  X(PlanarTemperatureGradient, ScalarTemperatureGradient, 2, 14) \
+  X(PlanarTraction, ScalarTraction, 2, 15) \
+  X(PlanarVelocity, Speed, 2, 16)
+
 void VERIF_THIS_PART(Reporter& R, const Args& A) {
   Ctx C{R, A};
-#if VERIF_PART == 0
-  for_each_numeric([&](auto tag) {
-    using T = decltype(tag);
-    run_raw<T, 3>(C, 100);
-    run_raw<T, 2>(C, 200);
-    run_cross<T, 3>(C, 300);
-    run_cross<T, 2>(C, 310);
-    run_dimension_change<T>(C, 320);
-  });
+#if C10_UNIT_HERE(0)
+  run_raw_unit<float>(C);
 #endif
-#ifdef C10_HAVE_QUANTITIES
-  // (quantity, the scalar type its magnitude is expected to have, dimension of the space, index)
-#if C10_Q_HERE(0)
-  run_quantity<PhQ::Acceleration, PhQ::ScalarAcceleration, 3>(C, "Acceleration", "ScalarAcceleration", 0);
+#if C10_UNIT_HERE(1)
+  run_raw_unit<double>(C);
 #endif
-#if C10_Q_HERE(1)
-  run_quantity<PhQ::Displacement, PhQ::Length, 3>(C, "Displacement", "Length", 1);
+#if C10_UNIT_HERE(2)
+  run_raw_unit<long double>(C);
 #endif
-#if C10_Q_HERE(2)
-  run_quantity<PhQ::Force, PhQ::ScalarForce, 3>(C, "Force", "ScalarForce", 2);
-#endif
-#if C10_Q_HERE(3)
-  run_quantity<PhQ::HeatFlux, PhQ::ScalarHeatFlux, 3>(C, "HeatFlux", "ScalarHeatFlux", 3);
-#endif
-#if C10_Q_HERE(4)
-  run_quantity<PhQ::Position, PhQ::Length, 3>(C, "Position", "Length", 4);
-#endif
-#if C10_Q_HERE(5)
-  run_quantity<PhQ::TemperatureGradient, PhQ::ScalarTemperatureGradient, 3>(C, "TemperatureGradient", "ScalarTemperatureGradient", 5);
-#endif
-#if C10_Q_HERE(6)
-  run_quantity<PhQ::Traction, PhQ::ScalarTraction, 3>(C, "Traction", "ScalarTraction", 6);
-#endif
-#if C10_Q_HERE(7)
-  run_quantity<PhQ::VectorArea, PhQ::Area, 3>(C, "VectorArea", "Area", 7);
-#endif
-#if C10_Q_HERE(8)
-  run_quantity<PhQ::Velocity, PhQ::Speed, 3>(C, "Velocity", "Speed", 8);
-#endif
-#if C10_Q_HERE(9)
-  run_quantity<PhQ::PlanarAcceleration, PhQ::ScalarAcceleration, 2>(C, "PlanarAcceleration", "ScalarAcceleration", 9);
-#endif
-#if C10_Q_HERE(10)
-  run_quantity<PhQ::PlanarDisplacement, PhQ::Length, 2>(C, "PlanarDisplacement", "Length", 10);
-#endif
-#if C10_Q_HERE(11)
-  run_quantity<PhQ::PlanarForce, PhQ::ScalarForce, 2>(C, "PlanarForce", "ScalarForce", 11);
-#endif
-#if C10_Q_HERE(12)
-  run_quantity<PhQ::PlanarHeatFlux, PhQ::ScalarHeatFlux, 2>(C, "PlanarHeatFlux", "ScalarHeatFlux", 12);
-#endif
-#if C10_Q_HERE(13)
-  run_quantity<PhQ::PlanarPosition, PhQ::Length, 2>(C, "PlanarPosition", "Length", 13);
-#endif
-#if C10_Q_HERE(14)
-  run_quantity<PhQ::PlanarTemperatureGradient, PhQ::ScalarTemperatureGradient, 2>(C, "PlanarTemperatureGradient", "ScalarTemperatureGradient", 14);
-#endif
-#if C10_Q_HERE(15)
-  run_quantity<PhQ::PlanarTraction, PhQ::ScalarTraction, 2>(C, "PlanarTraction", "ScalarTraction", 15);
-#endif
-#if C10_Q_HERE(16)
-  run_quantity<PhQ::PlanarVelocity, PhQ::Speed, 2>(C, "PlanarVelocity", "Speed", 16);
-#endif
-#endif
+#define X(QN, MN, DIM, IDX)                                                                                        \
+  if constexpr (C10_UNIT_HERE(3 + 3 * IDX + 0)) run_quantity_T<PhQ::QN, PhQ::MN, DIM, float>(C, #QN, #MN, IDX);   \
+  if constexpr (C10_UNIT_HERE(3 + 3 * IDX + 1)) run_quantity_T<PhQ::QN, PhQ::MN, DIM, double>(C, #QN, #MN, IDX);  \
+  if constexpr (C10_UNIT_HERE(3 + 3 * IDX + 2)) run_quantity_T<PhQ::QN, PhQ::MN, DIM, long double>(C, #QN, #MN, IDX);
+  C10_VECTOR_QUANTITIES(X)
+#undef X
 }
 
 #if VERIF_PART == 0
 int main(int argc, char** argv) {
   Args A = parse_args(argc, argv);
   Reporter R(A.out);
-  R.max_samples = 4;
+  R.max_samples = 3;
   verif_run_parts(R, A);
   return R.finish();
 }
